@@ -14,6 +14,9 @@ Round 5: the snapshot of the old children may be filled by a loop; members_liste
 C05/C01) also run under C11.
 Round 7: move must reject a batch that contains its own anchor before it touches the shared list (per-element guards are read as
 `anchor in batch`).
+Round 8: _attach/_detach as an explicit work list; the root attach through the local the root task was built in; a filtered
+two-part rebuild of the shared list must be a partition; _ChildrenList.remove must not have a path that cuts the shared list itself;
+id_precheck_complete (c05.intersection) and owners_compared_by_identity run under C11.
 Not decided: a memoised all_children whose invalidation looks complete (UNDECIDED).
 """
 from __future__ import annotations
@@ -1175,6 +1178,16 @@ def removal_paths(ctx, o):
                 return n
         return None
     f = prog.func('task._ChildrenList.remove')
+    cut = next((c for g in _closure(ctx, f) for c in [list_cut(g)] if c is not None), None)
+    if cut is not None:
+        # a path that takes the task out of the shared list itself: only the children assignment detaches what it drops
+        if any(facts.calls_named(g, '_detach') for g in _closure(ctx, f)):
+            o.undecided(f, cut, 'remove', f"_ChildrenList.remove cuts the shared list itself (`{src(cut)[:40]}`) and detaches by hand: cannot tell that "
+                                          f"every such path clears the owner of the whole removed subtree")
+        else:
+            o.refute(f, cut, 'remove', f"_ChildrenList.remove has a path that takes the task out of the shared list itself (`{src(cut)[:40]}`) instead "
+                                       f"of re-assigning the owner's children: nothing detaches the removed subtree on that path, it keeps reporting "
+                                       f"the WBS (a following `task.parent = None` re-roots a member instead of removing it)")
     _delegates(ctx, o, f, children_store("self._ChildrenList__parent"), 'remove', "list removal = children assignment on the owner",
                "_ChildrenList.remove does not go through the owner's children assignment (no detach)", in_place=list_cut)
     f = prog.func('wbs.WBS.roots.setter')
